@@ -57,7 +57,7 @@ def run(chk, binary):
         text = gen_text(rng)
         pat = rng.choice(PATTERNS)
         flag = rng.choice(["-g", "-g", "-v"])
-        variant = rng.choice(["mark", "cut", "else", "tally", "top", "nested", "elsecut", "open"])
+        variant = rng.choice(["mark", "cut", "else", "tally", "top", "nested", "elsecut", "open", "open2", "dangling"])
         pat2 = rng.choice(PATTERNS)
         if variant == "tally":
             # the scope also edits the first line each time: the lines still to be visited move
@@ -70,6 +70,12 @@ def run(chk, binary):
         elif variant == "open":
             # two key commands in the scope, the first leaves insert mode open: each starts in normal mode all the same
             argv = [flag, pat, "-m", "I#", "-m", "A$", "--end"]
+        elif variant == "open2":
+            # a command that leaves a selection open on the visited line (an empty one, often), then the mark
+            argv = [flag, pat, "-m", rng.choice(["v", "V", "i", "R"]), "-m", "I#<esc>", "--end"]
+        elif variant == "dangling":
+            # the scope ends in an unfinished command: it is forgotten before the next line is visited
+            argv = [flag, pat, "-m", "I#<esc>", "-m", rng.choice(["d", "f", "g", "2", '"a', "c"]), "--end"]
         elif variant == "nested":
             # a scope of its own in the --else branch: it runs (once) only when the outer set is empty
             argv = [flag, pat, "-m", "I#<esc>", "--else", "-g", pat2, "-m", "I%<esc>", "--end", "--end"]
@@ -82,7 +88,7 @@ def run(chk, binary):
         jobs.append({"args": argv, "stdin": text})
         meta.append((text, pat, flag, variant, argv, pat2))
     res = cli_map(binary, jobs)
-    dist = {"mark": 0, "cut": 0, "else": 0, "tally": 0, "top": 0, "nested": 0, "elsecut": 0, "open": 0, "final_newline": 0, "empty_lines": 0, "multibyte": 0, "else_taken": 0}
+    dist = {"mark": 0, "cut": 0, "else": 0, "tally": 0, "top": 0, "nested": 0, "elsecut": 0, "open": 0, "open2": 0, "dangling": 0, "final_newline": 0, "empty_lines": 0, "multibyte": 0, "else_taken": 0}
     mcases = []
     mmeta = []
     for (text, pat, flag, variant, argv, pat2), (rc, out, err) in zip(meta, res):
@@ -107,7 +113,7 @@ def run(chk, binary):
         sout = out.decode("utf-8", errors="replace")
         if variant == "elsecut" and not want:
             continue            # the else branch cut a field: not the subject here
-        if variant in ("mark", "else", "tally", "top", "nested", "elsecut", "open"):
+        if variant in ("mark", "else", "tally", "top", "nested", "elsecut", "open", "open2", "dangling"):
             # every visited line gets '#' before its first non-blank character, no other line changes
             exp_lines = []
             for i, l in enumerate(lines):
